@@ -27,8 +27,26 @@
        GRAPH (its own names and weighted edge list) never decreases from level to level of the
        returned list, and the first level is at least as good as the all-singletons partition;
        C13_levels_monotone_partial: the same on the first working graph for every input
-       (multigraphs included) - what is missing for a multigraph input is the transport of
-       Newman's formula through to_single_edges (parallel edges collapsed into their sum).
+       (multigraphs included).  It is SUPERSEDED (deep16, last part of this file) by
+     - C13_levels_monotone_all_inputs: for EVERY coherent input graph, multigraphs included, the
+       statement of C13_levels_monotone holds on the INPUT graph.  The missing piece was the
+       transport of Newman's formula through to_single_edges: C13_newman_collapse(_graph) -
+       Newman's formula is invariant under collapsing parallel edges into one edge with the sum
+       of their weights (every family of communities, every resolution, both graph kinds,
+       self-loops included; C13_collapse_regroups is the regrouping lemma behind it,
+       C13_collapse_keys_distinct / C13_collapse_weight say that the list-level [collapse] is the
+       collapse) - and C13_to_single_edges_newman: the graph built by to_single_edges (exact
+       content: C15_to_single_edges_content) has the modularity of the input multigraph and of
+       the list-level collapse of its edge list.  What is measured: with weighted = true the
+       multigraph's own weighted edge list, parallel edges counted individually, as C12 defines
+       modularity (C13_levels_monotone_weighted_all_inputs); with weighted = false a multigraph is
+       measured on its SUPPORT (one unit edge per adjacent pair:
+       C13_levels_monotone_unweighted_all_inputs), because convert_graph collapses first and
+       overwrites the weights with 1 afterwards - k parallel edges count once.  For the
+       modularity that counts every parallel edge the unweighted multigraph statement is FALSE:
+       C13_unweighted_multigraph_counterexample (evaluated: edges 1-2, 3-4 once, 2-3, 1-4 four
+       times; the returned level {1,2} {3,4} has modularity -3/10, the singletons -1/4) and
+       C13_levels_monotone_by_multiplicity_refuted.
    Domain of the numeric theorems: resolution >= 0 and, when weighted = true, non-negative real
    weights (with negative weights a non-candidate own community may be worth more than the
    model's implicit 0, and the potential argument fails). *)
@@ -38,6 +56,7 @@ From GV Require Import Base.Outcome Base.AMap Model.GState Model.Query Model.Lou
 From GV Require Import Proofs.WFDefs Proofs.LouvainStructOk Proofs.LouvainNumOk Proofs.LouvainTermOk
      Proofs.LouvainLevelOk Proofs.LouvainGenGraphOk Proofs.LouvainConvertOk Proofs.LouvainAggOk
      Proofs.LouvainLevelsOk Proofs.LouvainModelOk Proofs.LouvainTransportOk.
+From GV Require Import Model.Derived Proofs.NewmanCollapse.
 Import ListNotations.
 Open Scope Q_scope.
 
@@ -410,3 +429,154 @@ Proof.
   destruct louvain_model_nonvacuous as [g [_ [W [Hw [Hr [Hn Hl]]]]]].
   exists g. repeat (split; [assumption|]). exists mo_ex_levels. split; [exact Hl | reflexivity].
 Qed.
+
+(* ====================================================================================== *)
+(* deep16: collapsing parallel edges preserves Newman's modularity; monotone levels for     *)
+(* EVERY input graph                                                                        *)
+(* ====================================================================================== *)
+Section C13_collapse.
+  Context {T : Type}.
+  Variable teqb tltb : T -> T -> bool.
+  Hypothesis teqb_spec : forall x y, teqb x y = true <-> x = y.
+
+  (* [collapse] groups a weighted edge list by ordered end-point pair and sums the weights
+     ([collapse_graph dir]: after orienting every edge canonically when undirected).  Regrouping:
+     a selection that looks at the end points only weighs the same before and after *)
+  Theorem C13_collapse_regroups : forall (p : T * T * Q -> bool) (es : list (T * T * Q)),
+    (forall e e', wu e = wu e' -> wv e = wv e' -> p e = p e') ->
+    wsel p (collapse teqb es) == wsel p es.
+  Proof. exact (collapse_wsel teqb teqb_spec). Qed.
+
+  (* the result has one entry per end-point pair, carrying the total weight of that pair *)
+  Theorem C13_collapse_keys_distinct : forall es : list (T * T * Q),
+    NoDup (map (fun e => (wu e, wv e)) (collapse teqb es)).
+  Proof. exact (collapse_keys_distinct teqb teqb_spec). Qed.
+
+  Theorem C13_collapse_weight : forall (es : list (T * T * Q)) e, In e (collapse teqb es) ->
+    ww e == wsel (fun x => teqb (wu x) (wu e) && teqb (wv x) (wv e)) es.
+  Proof. exact (collapse_weight teqb teqb_spec). Qed.
+
+  (* NEWMAN'S FORMULA IS INVARIANT UNDER THE COLLAPSE: every family of communities (no partition
+     or NoDup hypothesis), every resolution, directed and undirected, self-loops included *)
+  Theorem C13_newman_collapse : forall dir (es : list (T * T * Q)) res (P : list (list T)),
+    newman teqb dir (collapse teqb es) res P == newman teqb dir es res P.
+  Proof. exact (newman_collapse teqb teqb_spec). Qed.
+
+  Theorem C13_newman_collapse_graph : forall dir (es : list (T * T * Q)) res (P : list (list T)),
+    newman teqb dir (collapse_graph teqb tltb dir es) res P == newman teqb dir es res P.
+  Proof. exact (newman_collapse_graph teqb teqb_spec tltb). Qed.
+End C13_collapse.
+
+Section C13_all_inputs.
+  Context {T A : Type}.
+  Variable teqb tltb : T -> T -> bool.
+  Hypothesis teqb_spec : forall x y, teqb x y = true <-> x = y.
+  Hypothesis tltb_asym : forall x y, tltb x y = true -> tltb y x = false.
+  Hypothesis tltb_total : forall x y, tltb x y = false -> tltb y x = false -> x = y.
+
+  (* the graph that to_single_edges builds has, on its weighted edge list, the modularity of the
+     input multigraph (parallel edges counted individually) and of the list-level collapse of the
+     input's edge list - for every family, resolution and graph kind *)
+  Theorem C13_to_single_edges_newman : forall (g h : gstate T A) esT,
+    WF teqb tltb g -> multi (sp g) = true ->
+    to_single_edges teqb tltb g = Ok h ->
+    wedges_of true (get_all_edges g) = Some esT ->
+    exists esH, wedges_of true (get_all_edges h) = Some esH /\
+      forall dir res (P : list (list T)),
+        newman teqb dir esH res P == newman teqb dir esT res P /\
+        newman teqb dir esH res P == newman teqb dir (collapse teqb esT) res P /\
+        newman teqb (directed (sp g)) esH res P
+        == newman teqb (directed (sp g)) (collapse_graph teqb tltb (directed (sp g)) esT) res P.
+  Proof. exact (to_single_edges_newman teqb tltb teqb_spec tltb_total). Qed.
+
+  (* on a coherent state the support [support_wedges g] (one unit edge per stored pair) is the
+     list-level support of the edge list: collapse, then weight 1 *)
+  Theorem C13_support_is_support_of_edge_list : forall (g : gstate T A) esT, WF teqb tltb g ->
+    wedges_of false (get_all_edges g) = Some esT ->
+    Permutation.Permutation (support_wedges g) (support_graph teqb tltb (directed (sp g)) esT).
+  Proof. exact (support_wedges_perm teqb tltb teqb_spec). Qed.
+
+  (* MONOTONICITY FOR EVERY INPUT (supersedes C13_levels_monotone_partial): no hypothesis on
+     multi (sp g), none on the weights.  [measured_wedges g weighted esT] is [esT], the input's own
+     weighted edge list, except for an unweighted call on a multigraph, where it is the support *)
+  Theorem C13_levels_monotone_all_inputs :
+    forall lf sf (g : gstate T A) weighted res thr perms ls esT,
+      WF teqb tltb g -> 0 <= res ->
+      wedges_of weighted (get_all_edges g) = Some esT ->
+      louvain_partitions teqb tltb lf sf g weighted res thr perms = Ok ls ->
+      let QT := newman teqb (directed (sp g))
+                  (if multi (sp g) && negb weighted then support_wedges g else esT) res in
+      chain (fun a b => QT a <= QT b) ls /\
+      exists first rest, ls = first :: rest /\
+        QT (map (fun x => [x]) (map nname (nodes_vec g))) <= QT first.
+  Proof. exact (louvain_levels_monotone_all_inputs teqb tltb teqb_spec tltb_asym tltb_total). Qed.
+
+  (* weighted = true, FULL: every coherent input, multigraphs included, measured on the input's own
+     weighted edge list (parallel edges individually) *)
+  Theorem C13_levels_monotone_weighted_all_inputs :
+    forall lf sf (g : gstate T A) res thr perms ls esT,
+      WF teqb tltb g -> 0 <= res ->
+      wedges_of true (get_all_edges g) = Some esT ->
+      louvain_partitions teqb tltb lf sf g true res thr perms = Ok ls ->
+      let QT := newman teqb (directed (sp g)) esT res in
+      chain (fun a b => QT a <= QT b) ls /\
+      exists first rest, ls = first :: rest /\
+        QT (map (fun x => [x]) (map nname (nodes_vec g))) <= QT first.
+  Proof. exact (louvain_levels_monotone_weighted teqb tltb teqb_spec tltb_asym tltb_total). Qed.
+
+  (* weighted = false: a single-edge graph on its own unit edge list, a multigraph on the support
+     of its edge list (what the code optimises: each adjacent pair counts once) *)
+  Theorem C13_levels_monotone_unweighted_all_inputs :
+    forall lf sf (g : gstate T A) res thr perms ls esT,
+      WF teqb tltb g -> 0 <= res ->
+      wedges_of false (get_all_edges g) = Some esT ->
+      louvain_partitions teqb tltb lf sf g false res thr perms = Ok ls ->
+      let QT := newman teqb (directed (sp g))
+                  (if multi (sp g) then support_graph teqb tltb (directed (sp g)) esT else esT) res in
+      chain (fun a b => QT a <= QT b) ls /\
+      exists first rest, ls = first :: rest /\
+        QT (map (fun x => [x]) (map nname (nodes_vec g))) <= QT first.
+  Proof. exact (louvain_levels_monotone_unweighted teqb tltb teqb_spec tltb_asym tltb_total). Qed.
+End C13_all_inputs.
+
+(* the hypotheses are satisfiable on a weighted multigraph with a doubled edge (1-2 with weights 2
+   and 3): four edges, three after the collapse, one returned level with a two-node community,
+   strictly better than the singletons on the input's own edge list *)
+Theorem C13_all_inputs_nonvacuous :
+  exists (g : gstate Z Z) esT first,
+    nc_ex_graph = Ok g /\ WF Z.eqb Z.ltb g /\ multi (sp g) = true /\ 0 <= 1 /\
+    wedges_of true (get_all_edges g) = Some esT /\ length esT = 4%nat /\
+    length (collapse_graph Z.eqb Z.ltb (directed (sp g)) esT) = 3%nat /\
+    louvain_partitions Z.eqb Z.ltb 10 50 g true 1 (1 # 10000000) nc_ex_perms = Ok [first] /\
+    (exists c, In c first /\ (2 <= length c)%nat) /\
+    newman Z.eqb (directed (sp g)) esT 1 (map (fun x => [x]) (map nname (nodes_vec g)))
+    < newman Z.eqb (directed (sp g)) esT 1 first.
+Proof. exact collapse_monotone_nonvacuous. Qed.
+
+(* THE UNWEIGHTED MULTIGRAPH STATEMENT IS FALSE FOR THE MODULARITY THAT COUNTS EVERY PARALLEL EDGE.
+   [rf_ex_graph]: undirected multigraph, no weights, nodes 1 2 3 4, edges 1-2 and 3-4 once, 2-3 and
+   1-4 four times each; visiting order 0 1 2 3 (rand 0.8, seed 0).  The model returns the single
+   level {1,2} {3,4} without meeting a tie; on the multigraph's own unit edge list its modularity
+   is -3/10, that of the singletons -1/4; on the support (the 4-cycle) it is an improvement. *)
+Theorem C13_unweighted_multigraph_counterexample :
+  exists (g : gstate Z Z) esT,
+    rf_ex_graph = Ok g /\ WF Z.eqb Z.ltb g /\ multi (sp g) = true /\ directed (sp g) = false /\
+    wedges_of false (get_all_edges g) = Some esT /\ length esT = 10%nat /\
+    louvain_partitions_t Z.eqb Z.ltb 10 50 g false 1 (1 # 10000000) rf_ex_perms = Ok ([rf_ex_level], false) /\
+    louvain_partitions Z.eqb Z.ltb 10 50 g false 1 (1 # 10000000) rf_ex_perms = Ok [rf_ex_level] /\
+    newman Z.eqb false esT 1 rf_ex_level == - (3 # 10) /\
+    newman Z.eqb false esT 1 (map (fun x => [x]) (map nname (nodes_vec g))) == - (1 # 4) /\
+    newman Z.eqb false (support_graph Z.eqb Z.ltb false esT) 1 (map (fun x => [x]) (map nname (nodes_vec g)))
+    < newman Z.eqb false (support_graph Z.eqb Z.ltb false esT) 1 rf_ex_level.
+Proof. exact louvain_unweighted_multigraph_refuted. Qed.
+
+Theorem C13_levels_monotone_by_multiplicity_refuted :
+  ~ (forall lf sf (g : gstate Z Z) res thr perms ls esT,
+       WF Z.eqb Z.ltb g -> 0 <= res ->
+       wedges_of false (get_all_edges g) = Some esT ->
+       louvain_partitions Z.eqb Z.ltb lf sf g false res thr perms = Ok ls ->
+       let QT := newman Z.eqb (directed (sp g)) esT res in
+       chain (fun a b => QT a <= QT b) ls /\
+       exists first rest, ls = first :: rest /\
+         QT (map (fun x => [x]) (map nname (nodes_vec g))) <= QT first).
+Proof. exact louvain_multiplicity_monotone_refuted. Qed.
